@@ -46,7 +46,8 @@ def check(P, R):
     # the limit test
     lim_tests = []
     for n in g.nodes:
-        if n.kind == 'test' and 'max_body_size' in names_loaded(n.ast):
+        if n.kind == 'test' and any(isinstance(x, ast.Compare) and isinstance(x.ops[0], (ast.Gt, ast.GtE, ast.Lt, ast.LtE))
+                                    and 'max_body_size' in names_loaded(x) and len(x.ops) == 1 for x in ast.walk(n.ast)):
             lim_tests.append(n)
     R.require(lim_tests, f'{f.fq}: no test involving max_body_size')
     for n in lim_tests:
